@@ -180,6 +180,25 @@ def run_case(ctx, mr, case):
                 for what, fh, kind, a, s in views[:3]:
                     fh2 = r2.open_twl_partition(int(what[-1])) if what.startswith('twl') else r2.open_ctr_partition(int(what[-1]))
                     check_view(ctx, case, what + '#reopen', fh2, img, spec, kind, a, s, rng, 3)
+                    # the image as a file opened read-only: a write through a view is refused by the file underneath, and the refused
+                    # call leaves the view where it was -- the read that follows returns the plaintext at the position before the write
+                    img._writable = False
+                    try:
+                        off = rng.choice([0, 1, rng.randrange(0, s), max(0, s - 40)])
+                        fh2.seek(off)
+                        try:
+                            fh2.write(pyenv.rbytes(rng, rng.choice([1, 16, 17, 40])))
+                            ctx.diff('oracle', f'write-accepted:{what[:7]}', dict(case, view=what, off=off), 'refused', 'accepted', f'{what}: write to a read-only image accepted')
+                        except Exception:
+                            pass
+                        pos = fh2.tell()
+                        got = fh2.read(24)
+                        ctx.stat('refused_writes')
+                        if pos != off or got != NB.expected_plain(img, spec, kind, a + off, min(24, s - off)):
+                            ctx.diff('oracle', f'write-refused-moved:{what[:7]}', dict(case, view=what, off=off), off, pos,
+                                     f'{what}: after a refused write at {off:#x} the view stands at {pos:#x} / the next read is not the plaintext there')
+                    finally:
+                        img._writable = True
             finally:
                 r2.close()
     finally:
